@@ -291,3 +291,21 @@ package uePolicyContainer
 //@ func (u *UEPolicySectionManagementSubResult) MarshalBinary() (r, err)
 //@   ensures implies(err == nil, len(r) >= 5 && u.Len == uint16(len(r) - 2) && r[0] == uint8(u.Len >> 8) && r[1] == uint8(u.Len) && r[2] == u.PlmnDigit1 && r[3] == u.PlmnDigit2 && r[4] == u.PlmnDigit3)
 //@ end
+
+//@ func verifLemmaCommandNested(pti, iei, t0, mcc, mnc, upsc, c0, withClassmark) (got, v, err)
+//@   requires PlmnArgs(mcc, mnc)
+//@   ensures err == nil && v != nil && v.ManageUEPolicyCommand != nil && v.Octet[0] == pti && v.Octet[1] == 1 && v.ManageUEPolicyCommand.PTI.Octet == pti
+//@   ensures v.ManageUEPolicyCommand.UEPolicySectionManagementList.Iei == iei && v.ManageUEPolicyCommand.UEPolicySectionManagementList.Len == 15 && (v.ManageUEPolicyCommand.UEPolicyNetworkClassmark != nil) == withClassmark
+//@   ensures len(got) == 1 && got[0].Len == 13 && PlmnSet(got[0], mcc, mnc)
+//@   ensures len(got[0].UEPolicySectionManagementSubListContents) == 1 && got[0].UEPolicySectionManagementSubListContents[0].Upsc == upsc && got[0].UEPolicySectionManagementSubListContents[0].Len == 8
+//@   ensures len(got[0].UEPolicySectionManagementSubListContents[0].UEPolicySectionContents) == 1 && Part1(got, 0).Len == 4 && Part1(got, 0).UEPolicyPartType.Octet == t0 && len(Part1(got, 0).UEPolicyPartContents) == 3 && Part1(got, 0).UEPolicyPartContents[0] == c0[0] && Part1(got, 0).UEPolicyPartContents[1] == c0[1] && Part1(got, 0).UEPolicyPartContents[2] == c0[2]
+//@ end
+
+//@ func verifLemmaRejectNested(pti, iei, mcc, mnc, r0, r1) (got, v, err)
+//@   requires PlmnArgs(mcc, mnc)
+//@   ensures err == nil && v != nil && v.ManageUEPolicyReject != nil && v.Octet[0] == pti && v.Octet[1] == 3 && v.ManageUEPolicyReject.PTI.Octet == pti
+//@   ensures v.ManageUEPolicyReject.UEPolicySectionManagementResult.Iei == iei && v.ManageUEPolicyReject.UEPolicySectionManagementResult.Len == 15
+//@   ensures len(got) == 1 && got[0].Len == 13 && PlmnSet(got[0], mcc, mnc) && len(got[0].UEPolicySectionManagementSubResultContents) == 2
+//@   ensures got[0].UEPolicySectionManagementSubResultContents[0].Upsc == r0.Upsc && got[0].UEPolicySectionManagementSubResultContents[0].FailInstructionOrder == r0.FailInstructionOrder && got[0].UEPolicySectionManagementSubResultContents[0].Cause == 0x6f
+//@   ensures got[0].UEPolicySectionManagementSubResultContents[1].Upsc == r1.Upsc && got[0].UEPolicySectionManagementSubResultContents[1].FailInstructionOrder == r1.FailInstructionOrder && got[0].UEPolicySectionManagementSubResultContents[1].Cause == 0x6f
+//@ end
